@@ -28,7 +28,7 @@ TRUSTED_BASE = [
     "axioms: none declared; Print Assumptions output of every property theorem is recorded below",
     "translator tools/gogen (syntactic extraction from /repo/*.go with go/parser: registries, tables, reset sets, call sites)",
     "extraction: ExtrOcamlBasic only (bool, option, unit, list, prod, sumbool mapped to OCaml types; byte, positive, N, Z, nat kept as extracted inductives); no Extract Constant; OCaml driver converts char<->byte by Obj.magic on the 256 constant constructors, checked at start-up against the extracted byte_to_N",
-    "unverified glue: OCaml case generators, Go runner (harness/), hook file /repo/verif_hooks.go (build tag verif), this orchestrator",
+    "unverified glue: OCaml case generators, Go runner (harness/), hook files /verif/hooks/*.go (package twig, build tag verif, add-only, injected with go build -overlay; not committed in /repo), this orchestrator",
     "modelled rather than verified: Go's reflect, sort, strings, strconv, html, unicode, sync.Pool, scheduler, binary64 exactness on integers within 2^53",
 ]
 
